@@ -598,6 +598,19 @@ Section Callback.
   Definition quiet (o : cbout) : Prop :=
     co_base o = [] /\ co_bearer o = false /\ co_auth o = None /\ co_status o <> 302.
 
+  Lemma callback_no_leak i : co_leak (callback enc_raw dec_pad dec_raw mac parse key now i) = false.
+  Proof.
+    unfold callback.
+    destruct (is_nil (cb_error i)); cbn [negb]; [|reflexivity].
+    destruct (is_nil (cb_code i) || is_nil (cb_state i)); [reflexivity|].
+    destruct (cb_cookie i) as [[|t0 text]|]; try reflexivity.
+    destruct (unpack_text enc_raw dec_pad dec_raw mac key (t0 :: text) now SESSION_MAX_AGE) as [v s u r|]; [|reflexivity].
+    destruct (beqb (cb_state i) s); cbn [negb]; [|reflexivity].
+    destruct (cb_disc i); cbn [negb]; [|reflexivity].
+    destruct (cb_exch i) as [[|k0 tok]|]; try reflexivity.
+    destruct (is_nil r); reflexivity.
+  Qed.
+
   (* every run of the handler is one of: refused before any exchange; exchange
      attempted (exactly once, with the packed verifier) and failed; exchange
      succeeded and the token goes either into a redirect to the packed return URL
@@ -807,6 +820,8 @@ Proof.
   set (o := callback _ _ _ _ _ _ _ i).
   pose proof (callback_inv (fun _ => ck_encraw c) (fun _ => ck_pad c) (fun _ => ck_rawdec c) (fun _ _ => ck_mac c) (fun _ => pr) [] (ck_now c) i) as Inv.
   cbv zeta in Inv. fold o in Inv. unfold cb_spec.
+  pose proof (callback_no_leak (fun _ => ck_encraw c) (fun _ => ck_pad c) (fun _ => ck_rawdec c) (fun _ _ => ck_mac c) (fun _ => pr) [] (ck_now c) i) as NL.
+  fold o in NL. rewrite NL.
   assert (QS : forall st, co_status o <> st -> (co_status o =? st) = false) by (intros; now apply N.eqb_neq).
   destruct Inv as [[T (Qb & Qbe & Qa & Qs)] | (text & v & s & u & r & K & Nt & U & St & E & C & D & T & Rest)].
   - rewrite T, Qbe, Qa, Qb, (QS _ Qs). reflexivity.
@@ -815,8 +830,9 @@ Proof.
     destruct Rest as [(Qb & Qbe & Qa & Qs) | (tok & X & Ntok & S3 & [(Nr & Be & Ba & Au) | (Nr & Be & Au & Ba)])].
     + rewrite Qbe, Qa, Qb, (QS _ Qs). reflexivity.
     + rewrite Be, X, S3, Ba, Au. destruct tok; [congruence|]. apply is_nil_false in Nr. rewrite Nr, beqb_refl. reflexivity.
-    + rewrite Be, Au, X, S3, Ba. destruct tok; [congruence|]. subst r. cbn [orb andb is_nil N.eqb].
-      rewrite N.eqb_refl. cbn [andb]. apply orig_spec_model.
+    + rewrite Be, Au, X, S3, Ba. destruct tok as [|k0 tok]; [congruence|]. subst r. cbn [orb andb is_nil N.eqb].
+      rewrite N.eqb_refl, beqb_refl. cbn [andb negb].
+      rewrite (orig_spec_model (fun _ => pr) u (cb_prefix i)). reflexivity.
 Qed.
 
 Lemma model_meets_spec i : input_sane i = true -> spec_ok i (model i) = true.
@@ -859,4 +875,30 @@ Proof.
   exists (fun _ => w_canon), (fun _ => Some (pack_raw w_mac [] w_f)), (fun _ => None), w_mac, [], w_f.
   split; [intros; apply repeat_length|]. split; [reflexivity|]. split; [reflexivity|].
   intros text [<- | [<- | []]]; vm_compute; repeat split; reflexivity.
+Qed.
+
+(* where the bearer goes, for a token of ANY length: into Location only next to a
+   non-empty packed return URL; otherwise whole into the auth cookie; nowhere else *)
+Lemma bearer_placement enc_raw dec_pad dec_raw mac parse key now i :
+  let o := callback enc_raw dec_pad dec_raw mac parse key now i in
+  co_leak o = false /\
+  (co_bearer o = true ->
+     exists text v s u r, cb_cookie i = Some text /\
+       unpack_text enc_raw dec_pad dec_raw mac key text now SESSION_MAX_AGE = Accepted v s u r /\
+       r <> [] /\ co_base o = r /\ co_auth o = None) /\
+  (forall a, co_auth o = Some a ->
+     cb_exch i = ExOk a /\ co_bearer o = false /\
+     exists text v s u, cb_cookie i = Some text /\
+       unpack_text enc_raw dec_pad dec_raw mac key text now SESSION_MAX_AGE = Accepted v s u [] /\
+       co_base o = validate_original parse u (cb_prefix i)).
+Proof.
+  cbv zeta. split; [apply callback_no_leak|].
+  destruct (callback_inv enc_raw dec_pad dec_raw mac parse key now i)
+    as [[_ (Qb & Qbe & Qa & _)] | (text & v & s & u & r & K & _ & U & _ & _ & _ & _ & _ &
+         [(Qb & Qbe & Qa & _) | (tok & X & _ & _ & [(Nr & Be & Ba & Au) | (Nr & Be & Au & Ba)])])].
+  - split; [congruence | intros a H; congruence].
+  - split; [congruence | intros a H; congruence].
+  - split; [|intros a H; congruence]. intros _. exists text, v, s, u, r. auto.
+  - split; [congruence|]. intros a H. rewrite Au in H. inversion H. subst a r.
+    split; [exact X|]. split; [exact Be|]. exists text, v, s, u. auto.
 Qed.
